@@ -199,8 +199,10 @@ type Endpoint struct {
 	rdl      time.Time
 	wake     chan struct{}
 	maxQueue int
-	peer     *net.UDPAddr // default destination for Write
-	werr     error        // when set, writes fail with it while reads go on
+	peer     *net.UDPAddr  // default destination for Write
+	werr     error         // when set, writes fail with it while reads go on
+	gate     chan struct{} // the next write blocks in the "socket" until this is closed
+	entered  chan struct{} // closed when that write has entered the socket
 }
 
 var _ net.Conn = (*Endpoint)(nil)
@@ -233,6 +235,16 @@ func (e *Endpoint) SetSource(a *net.UDPAddr) {
 // FailWrites makes every later write of this socket fail with err (a refused
 // destination, a full send buffer) while reads keep being served.
 func (e *Endpoint) FailWrites(err error) { e.mu.Lock(); e.werr = err; e.mu.Unlock() }
+
+// HoldNextWrite makes the next write of this socket block inside the write (as
+// a full send buffer would) until release is closed; entered is closed when
+// the write is being held.
+func (e *Endpoint) HoldNextWrite(release chan struct{}) (entered chan struct{}) {
+	e.mu.Lock()
+	defer e.mu.Unlock()
+	e.gate, e.entered = release, make(chan struct{})
+	return e.entered
+}
 
 // SetPeer sets the default destination of Write.
 func (e *Endpoint) SetPeer(a *net.UDPAddr) { e.mu.Lock(); e.peer = a; e.mu.Unlock() }
@@ -296,6 +308,13 @@ func (e *Endpoint) WriteMsgUDP(b, oob []byte, addr *net.UDPAddr) (n, oobn int, e
 		err := e.werr
 		e.mu.Unlock()
 		return 0, 0, err
+	}
+	if g := e.gate; g != nil {
+		e.gate = nil
+		close(e.entered)
+		e.mu.Unlock()
+		<-g // a full send buffer: the caller is held inside the socket write
+		e.mu.Lock()
 	}
 	src := e.addr
 	if addr == nil {
